@@ -52,7 +52,7 @@ def exBadRange : Bytes := Cookie.strCps "bytes=20-"
 /-- **tie to the source** (all by `decide` over what was extracted on this run): the two helper
 messages carry the types `http.response.start` / `http.response.body` with exactly the keys
 status, headers / body, more_body, and an argument-less `send_http_body` is the final empty body;
-`list_headers` encodes key and value with latin-1 and the cookie line with ascii; the range-error
+`list_headers` encodes key and value with latin-1 and the cookie line with latin-1 too (the C04 repair); the range-error
 path of ASGI lower-cases the names before encoding them (the repair), the WSGI one hands the items
 over as they are; the two interfaces use the same header names and rules. -/
 theorem source_pinned :
@@ -60,7 +60,7 @@ theorem source_pinned :
     Gen.Gateway.startKeys = ["status", "headers"] ∧
     Gen.Gateway.bodyKeys = [("body", "body"), ("more_body", "more_body")] ∧
     Gen.Gateway.bodyDefaults = [("body", "b''"), ("more_body", "False")] ∧
-    Gen.Gateway.headerCodecs = ["latin-1", "latin-1"] ∧ Gen.Gateway.cookieCodec = "ascii" ∧
+    Gen.Gateway.headerCodecs = ["latin-1", "latin-1"] ∧ Gen.Gateway.cookieCodec = "latin-1" ∧
     Gen.Gateway.asgiErrorLowersName = true ∧ Gen.Gateway.asgiErrorCodecs = ["latin-1", "latin-1"] ∧
     Gen.Gateway.wsgiErrorRawItems = true ∧ Gen.Gateway.errorBodyCodec = "utf8" ∧
     Gen.Gateway.setCookieNameBytes = Gen.Gateway.setCookieNameStr ∧
